@@ -377,6 +377,62 @@ pub fn run(run: &Run) {
             }
         });
     }
+    // labels made of several contextual clusters far apart: every rule at every position that holds a contextual code point
+    run.prop("clustered_contextual_labels", run.pick(300_000, 6_000_000), gens::clustered_labels, |s, l| {
+        let chars: Vec<char> = s.chars().collect();
+        let positions: Vec<usize> = chars.iter().enumerate().filter(|(_, c)| ref_registry(**c as u32).is_some()).map(|(i, _)| i).collect();
+        check_label_all(&chars, &positions, &ALL_RULES, l)
+    });
+    // every Unicode scalar value as the inspected neighbour in the 17 templates again, behind 3000 two-byte letters (code paths that only
+    // exist for long labels); one evaluation of the target rule per template
+    run.par("per_role_sweep_behind_long_prefix", true, |tid, n, l| {
+        let plen = 3000usize;
+        let prefix: Vec<char> = std::iter::repeat('\u{e9}').take(plen).collect();
+        let mut chars: Vec<char> = Vec::with_capacity(plen + 8);
+        let mut label = String::with_capacity(2 * plen + 32);
+        let mut cp = tid as u32;
+        while cp < 0x110000 {
+            if let Some(x) = char::from_u32(cp) {
+                if cp % 4096 < n as u32 && run.stopped() {
+                    return;
+                }
+                // only code points that some rule can tell apart from an ordinary letter, plus every 64th other one
+                let d = db();
+                let k = cp as usize;
+                // (viramas, every code point with a Joining_Type or one of the scripts the rules ask for, contextual code points, the Arabic block)
+                let special = k < crate::ucd::N && (d.u63.ccc[k] == 9 || d.jt(cp) != 0 || d.sc(cp) != 0 || ref_registry(cp).is_some() || (0x600..0x700).contains(&cp));
+                if special || cp % 64 == 0 {
+                    let templates: [(&[char], usize, CtxRule); 12] = [
+                        (&[x, ZWJ], 1, CtxRule::Zwj),
+                        (&[x, ZWNJ, D], 1, CtxRule::Zwnj),
+                        (&[D, x, ZWNJ, D], 2, CtxRule::Zwnj),
+                        (&[D, ZWNJ, x], 1, CtxRule::Zwnj),
+                        (&[D, ZWNJ, x, D], 1, CtxRule::Zwnj),
+                        (&['\u{375}', x], 0, CtxRule::Keraia),
+                        (&[x, '\u{5f3}'], 1, CtxRule::HebrewPunct),
+                        (&['\u{30fb}', 'a', x], 0, CtxRule::KatakanaDot),
+                        (&[x, '\u{b7}', 'l'], 1, CtxRule::MiddleDot),
+                        (&['l', '\u{b7}', x], 1, CtxRule::MiddleDot),
+                        (&['\u{660}', x, '\u{6f1}'], 0, CtxRule::ArabicIndic),
+                        (&['\u{6f1}', x, '\u{661}'], 0, CtxRule::ExtArabicIndic),
+                    ];
+                    for (t, pos, rule) in templates {
+                        chars.clear();
+                        chars.extend_from_slice(&prefix);
+                        chars.extend_from_slice(t);
+                        label.clear();
+                        label.extend(chars.iter());
+                        l.cases += 1;
+                        if let Err(v) = check_at(rule, &chars, &label, plen + pos, l) {
+                            run.violate(v);
+                            return;
+                        }
+                    }
+                }
+            }
+            cp += n as u32;
+        }
+    });
     // (c) random labels and positions, all 8 functions
     let mk = || {
         let ch = prop_oneof![45 => gens::pick(&pools().ctx), 15 => gens::pick_classed(&pools().by_jt), 10 => gens::pick(&pools().virama), 20 => gens::pick(&pools().general), 10 => gens::gchar()];
